@@ -198,11 +198,12 @@ func runC19Dag(x *kit.Ctx, cs C19Case) {
 						}
 						continue
 					}
-					if missing && ver == "1" {
+					if missing && (ver == "1" || !strict) {
 						// the CARv1 writer (SelectiveCar) has no notion of skipping an absent link and car get-dag
-						// does not promise one for it: a refusal emits nothing; an accepted run is judged
+						// does not promise one for it; that the CARv2 writer skips one unless --strict is the flag's
+						// usage text, not the statement: a refusal emits nothing; an accepted run is judged
 						if r.Exit != 0 {
-							x.Outcome("get-dag-v1-missing-link-refused")
+							x.Outcome("get-dag-v" + ver + "-missing-link-refused")
 							continue
 						}
 					}
@@ -229,7 +230,13 @@ func runC19Dag(x *kit.Ctx, cs C19Case) {
 					}
 					// identity leaves need not be stored (the CARv2 blockstore drops them, the CARv1 writer keeps them)
 					if !sameRoots(c19NoIdentity(got), c19NoIdentity(want)) {
-						x.Fail("c19:get-dag-blocks:"+tag, "get-dag output blocks %x want the DAG in first-visit order %x", got, want)
+						if c19SameMultiset(c19NoIdentity(got), c19NoIdentity(want)) {
+							// the statement fixes the order for filter, list and concat; for get-dag it asks for the
+							// library's content: the same blocks in another order are recorded, not reported
+							x.Outcome("beyond-statement:get-dag-order:" + tag)
+						} else {
+							x.Fail("c19:get-dag-blocks:"+tag, "get-dag output blocks %x want the blocks of the DAG (first-visit order) %x", got, want)
+						}
 					}
 					for _, g := range got {
 						if model.IsIdentity(g) {
@@ -593,7 +600,7 @@ func init() {
 			"car create of 6 source shapes x v1/v2 x wrap/no-wrap; get-dag v1/v2 from every start node (implicit root, explicit, absent) of a UnixFS DAG in 6 variants (block order, an absent linked block x --strict, raw / identity / dag-cbor leaves, 2 roots, 0 roots) x 5 containers x 4 kinds of pre-existing output, plus a matcher-only --selector; " +
 			"get-dag --selector (c19sel.go): every DAG of n nodes (node 0 = root, links i->j for i<j, every node reachable; link multiplicity 0..1 for n <= 4 (thorough 5), 0..2 for n <= 3 (thorough 4): all shared sub-DAGs, diamonds and one node linking a child twice; children in ascending and in descending node order; dag-cbor/CIDv1 and dag-pb/CIDv0 nodes (dag-pb n <= 4); an unrelated block stored alongside) " +
 			"x the selector family {matcher, explore-all without limit, explore-all with every depth limit 0..n+1 (dag-pb 0..3n+1: a link sits three data-model steps below its node), union of the first two link fields of the start node each continued with explore-all limited to 1 / 2 / 3 blocks or unlimited (16 pairs), recursive first-child and second-child spines, spine + shallow explore-all} x --version 1 / 2, " +
-			"compared with the blocks go-ipld-prime's own walker loads for the same selector text over the same blocks (each once, first-load order; revisits allowed, as get-dag requests for a custom selector), output root = start CID, output accepted by inspect --full and verify; " +
+			"compared with the blocks go-ipld-prime's own walker loads for the same selector text over the same blocks (each once; the same blocks in another order than first-load order are recorded as beyond-statement:get-dag-order; a refusal of a walk that reaches an absent block without --strict is recorded, not reported; revisits allowed, as get-dag requests for a custom selector), output root = start CID, output accepted by inspect --full and verify; " +
 			"reduced matrices (fully enumerated, genC19Sel): input container v1+v2 for n <= 3, v1 for n = 4 (thorough: all 5 for n <= 3 and the single-link DAGs of 4 nodes, v1+v2 otherwise); on the first container for n <= 3 (thorough also single-link n = 4): implicit start + root-first block order, start at node 1, each node k >= 1 absent from the archive (v2 skips it like the library walk answering SkipMe; thorough: x --strict must refuse when the walk reaches it); " +
 			"every produced archive is re-checked with car inspect --full and car verify, its embedded index is compared with its payload, and its content with the reference answer; every input is re-read after the command (a change is recorded as an outcome); " +
 			"what the statement does not carry is recorded as a beyond-statement:* outcome, never as a violation: the text of the inspect report and of detach-index list, whether a digest-only index can be listed, side effects on the input or on the target of a refused append, a refused CID list that is empty or messy; non-trivial = non-empty input",
@@ -628,4 +635,24 @@ func init() {
 			"car create onto an existing file resumes into it and refuses a file that is not its own unfinished output (refusal = nothing emitted)",
 		},
 	})
+}
+
+// c19SameMultiset: the same CIDs with the same multiplicities, in any order.
+func c19SameMultiset(a, b [][]byte) bool {
+	if len(a) != len(b) {
+		return false
+	}
+	n := map[string]int{}
+	for _, c := range a {
+		n[string(c)]++
+	}
+	for _, c := range b {
+		n[string(c)]--
+	}
+	for _, v := range n {
+		if v != 0 {
+			return false
+		}
+	}
+	return true
 }
